@@ -116,6 +116,16 @@ def families(tier):
               dict(bus='C', pat='G', name='hg', prog=[('pause',)]), dict(bus='A', pat='X', name='hxA', prog=[('pause',)])]
         out.append(dict(prop='C06', family='c06.mutex.serial', id=f'c06/three-{pshape}-o{"".join(o)}', cfg=cfg, params=dict(first_b='handler', par_a=False, par_b=False),
                         scn=dict(buses={'A': {}, 'B': {}, 'C': {}}, order=list(o), handlers=hs, main=[('disp', 'A', 'P', 'ff'), ('disp', 'A', 'X', 'ff')], actors=[], forwards=[], settle=3.0)))
+    # ONE handler (serial or parallel bus) awaits two children concurrently through asyncio.gather: two tasks that both carry the handler's
+    # 'I hold the lock' context process their child inline - they must still take turns
+    for b1, b2, par_a, cshape in itertools.product('BC', 'BC', (False, True), ('pause', 'pause_pause')):
+        hc = [('pause',)] * (2 if cshape == 'pause_pause' else 1)
+        hs = [dict(bus='A', pat='P', name='hp', prog=[('gather_await', [(b1, 'C'), (b2, 'C2')]), ('pause',)]),
+              dict(bus='B', pat='C', name='hcB', prog=hc), dict(bus='C', pat='C', name='hcC', prog=hc), dict(bus='A', pat='X', name='hxA', prog=[('ret', 0)])]
+        main = [('disp', 'A', 'P', 'ff'), ('disp', 'A', 'X', 'ff')]
+        for o in (['A', 'B', 'C'], ['C', 'B', 'A']):
+            out.append(dict(prop='C06', family='c06.mutex.gather_in_one_handler', id=f'c06/gather-{b1}{b2}-p{int(par_a)}-{cshape}-o{"".join(o)}', cfg=cfg, params=dict(first_b='gather', par_a=par_a, par_b=False),
+                            scn=dict(buses={'A': dict(parallel=par_a), 'B': {}, 'C': {}}, order=o, handlers=hs, main=main, actors=[], forwards=[], settle=3.0)))
     # the grammar-generated corpus shared by the bus properties (vsched/gen.py), judged by this property's oracle
     from .. import gen
     out += gen.family('C06', tier, params=dict(first_b='generated', par_a=None, par_b=None), timeouts=(None,))
